@@ -145,7 +145,8 @@ func c19Run(o *vh.Out, inAny any) {
 	// read back
 	loadStatus := int64(0)
 	var tagsRead []int64
-	var raws []string
+	var raws, raws2 []string
+	var reuse []byte // buffer handed to RawTableTo and reused from table to table
 	if panicked == nil {
 		func() {
 			defer func() {
@@ -167,10 +168,20 @@ func c19Run(o *vh.Out, inAny any) {
 					b = nil
 				}
 				raws = append(raws, vh.Tuple(vh.Z(st), vh.BytesLit(b)))
+				// the same table through RawTableTo with the buffer of the previous table
+				b2, err2 := ld.RawTableTo(tg, reuse)
+				st2 := int64(0)
+				if err2 != nil {
+					st2 = 1
+					b2 = nil
+				} else {
+					reuse = b2
+				}
+				raws2 = append(raws2, vh.Tuple(vh.Z(st2), vh.BytesLit(b2)))
 			}
 		}()
 	}
-	coq := vh.App("mkCase", vh.List(tabs), vh.BytesLit(out), vh.List(after), vh.Z(loadStatus), vh.ZList(tagsRead), vh.List(raws))
+	coq := vh.App("mkCase", vh.List(tabs), vh.BytesLit(out), vh.List(after), vh.Z(loadStatus), vh.ZList(tagsRead), vh.List(raws), vh.List(raws2))
 	key := ""
 	if len(in.Tables) > 0 {
 		key = coq
